@@ -65,6 +65,11 @@ WellFormed(bytes, tables) ==
           /\ \A k \in (off + len + 1)..(off + Round4(len)) : bytes[k] = 0 \* zero padded
           /\ RecSum(bytes, i) = Checksum(Zeroed(t, Data(bytes, i)))       \* directory checksum
      /\ (HeadTag \in DOMAIN tables /\ Len(tables[HeadTag]) >= 12) => Checksum(bytes) = Magic
+     \* the binary-search fields of the header are functions of the table count (OpenType "Table Directory")
+     /\ n > 0 => LET es == CHOOSE e \in 0..16 : 2^e <= n /\ n < 2^(e + 1) IN
+                  /\ bytes[7] * 256 + bytes[8] = 16 * (2^es)                    \* searchRange
+                  /\ bytes[9] * 256 + bytes[10] = es                            \* entrySelector
+                  /\ bytes[11] * 256 + bytes[12] = 16 * n - 16 * (2^es)         \* rangeShift
 
 -----------------------------------------------------------------------------
 (* Reference builder: one executable definition of a conforming output.    *)
